@@ -3,6 +3,7 @@ import UscxmlVerif.Spec.W3C
 import UscxmlVerif.Proofs.Select
 import UscxmlVerif.Proofs.CfgInv
 import UscxmlVerif.Proofs.Interval
+import UscxmlVerif.Proofs.Subtree
 /-!
 # C01 — the interpreter follows the W3C SCXML step algorithm
 
@@ -36,6 +37,24 @@ theorem selection_conflict_free_w3c (c : Chart) (hc : Proofs.Struct.Coherent c =
   intro i hi' j hj hne s hs
   have hno := selection_conflict_free_partial c config ev pf x i hi' j hj hne
   exact Proofs.Interval.disjoint_of_not_overlaps c hc hi S hcfg i j (hplain i hi') (hplain j hj) hno s hs.1 hs.2
+
+/-- the two chart hypotheses are theorems for the charts the checks work with: `flatten` of a well-formed document (root
+`<scxml>`, only scxml / state / parallel elements have state-like children, no child is an scxml element) is coherent
+(`Proofs.Flatten.coherent_flatten`) and numbered in pre-order (`Proofs.Subtree.intervalOK_flatten`: the descendants of a
+state are the interval after it, and `nextStateAfter` finds the end of that interval because `resortStates` puts the
+pseudo-states first). So for every such document, every configuration of real states, every event and every outcome of the
+conditions: the transitions LargeMicroStep selects (those of real states with real targets) have pairwise disjoint
+Appendix D exit sets. -/
+theorem selection_conflict_free_w3c_of_document (d : Doc) (late : Bool) (hwf : Proofs.Flatten.WFDoc d = true) (hroot : d.kind = .scxml)
+    (config : List Nat) (ev : Option String) (pf : List Nat) (x : XS) (S : Spec.W3C.SState)
+    (hcfg : Proofs.Struct.ConfigOk (flatten d late) S.config)
+    (hplain : ∀ i ∈ (Large.selectLoop (flatten d late) config ev pf { x := x }).transSet,
+      Properties.C05.plainTrans (flatten d late) (Model.Tables.tr (flatten d late) i) = true) :
+    ∀ i ∈ (Large.selectLoop (flatten d late) config ev pf { x := x }).transSet,
+      ∀ j ∈ (Large.selectLoop (flatten d late) config ev pf { x := x }).transSet,
+      i ≠ j → ∀ s, ¬ (s ∈ Spec.W3C.exitSetOf (flatten d late) S i ∧ s ∈ Spec.W3C.exitSetOf (flatten d late) S j) :=
+  selection_conflict_free_w3c (flatten d late) (Proofs.Flatten.coherent_flatten d late hwf hroot)
+    (Proofs.Subtree.intervalOK_flatten d late hwf hroot) config ev pf x S hcfg hplain
 
 /-- the numbering hypothesis holds of a concrete chart (and `Coherent` of the same one, `Properties.C05.sample`) -/
 example : Proofs.Interval.IntervalOK Properties.C05.sample = true := by decide
